@@ -99,7 +99,7 @@ func Explore(t *T, bound int, maxExec int64, body func(c *Ctx)) ExploreStats {
 	}
 	var rec func(prefix []int, want []point, spent int)
 	rec = func(prefix []int, want []point, spent int) {
-		if (maxExec > 0 && st.Execs >= maxExec) || (st.Execs > 0 && st.Execs%64 == 0 && PastDeadline()) || (st.Capped && PastDeadline()) {
+		if (maxExec > 0 && st.Execs >= maxExec) || (st.Execs > 0 && st.Execs%64 == 0 && (PastDeadline() || t.pastCaseDeadline())) || (st.Capped && (PastDeadline() || t.pastCaseDeadline())) {
 			st.Capped = true
 			t.Capped()
 			return
